@@ -441,6 +441,8 @@ func checkC06(r *core.Run) {
 	r.Rule("E7-flow: every bank mutator call site matches a row of the closed flow table (modules, counter-party term, amount form)")
 	r.Rule("T-remaining-term: at the hand-over of a migrating shard the replacement's Duration is computed from the replaced shard's own CreatedAt and Duration (the worker must stop earning when the paid period ends)")
 	ruleRemainingTerm(r, "T-remaining-term")
+	r.Rule("T-couple(release): ShardRelease lowers Pledge.TotalShardPledged by the shard's recorded collateral, read before anything can write it (the coin handed to RepayPledgeDebt is a copy)")
+	ruleReleaseTerm(r)
 	r.Assume(aDeps)
 	r.Assume(aCG)
 	r.Assume("A-bank: bank.SendCoinsFromModuleToModule/ToAccount panic when a named module account is not registered (cosmos-sdk v0.46 x/bank keeper)")
@@ -468,6 +470,8 @@ func checkC07(r *core.Run) {
 	r.Rule("E7-flow (node rows) + E7-release: recipient of ShardRelease is MustAcc(shard.Sp) of the same shard value, or the key used to look the shard up")
 	r.Rule("G-rmv: RemoveVstorage outflow <= size <= TotalStorage − UsedStorage; G-used: ShardPledge UsedStorage += <= free-capacity test")
 	r.Rule("T-release-amount: ShardRelease pays shard.Pledge after RepayPledgeDebt(shard.Sp, …) on that same coin; T-couple(Shard.Pledge) shared with C14")
+	r.Rule("T-debt-repay: RepayPledgeDebt lowers the debt record wherever it consumes a coin against it")
+	ruleDebtRepay(r, "T-debt-repay")
 	r.Assume(aDeps)
 	r.Assume(aCG)
 	ruleFlows(r, "C07")
